@@ -69,6 +69,12 @@ def run_demo(copy, vdir, meta):
             dst = os.path.join(copy, d, "zz_seed_" + os.path.basename(t))
             shutil.copy(t, dst)
             names = re.findall(r"^func (Test\w+)\(", src, re.M)
+            if meta.get("demo_test"):  # one shared demo file for several variants: run this variant's test only
+                want = [n for n in names if n == meta["demo_test"]]
+                if not want:
+                    os.remove(dst)
+                    continue
+                names = want
             pat = "^(" + "|".join(names) + ")$" if names else "."
             rc, out = run(["go", "test", "-count=1", "-timeout", "300s", "-run", pat, "./" + d + "/"], copy, 400)
             os.remove(dst)
